@@ -244,6 +244,12 @@ def main():
                          '; '.join('%s: %s' % (k, v) for k, v in tfail.items()
                                    if k in corr.GEN_PROPS and prop in corr.GEN_PROPS[k][0])))
         lines.append('NOTE: ' + build_note)
+    if 'translate-tables-partial' in tfail:
+        note = ('the table translator could not read the inline lists of the token rules from the rewritten '
+                'source and kept their previous values (%s); model and code are tied for these by the '
+                'correspondence check only' % tfail['translate-tables-partial'][:200])
+        build_note = (build_note + ' | ' if build_note else '') + note
+        lines.append('NOTE: ' + note)
     if not build.ok:
         # Which build failures leave THIS property unfounded:
         #  - Tables.v could not be regenerated, or the model / extraction /
